@@ -243,7 +243,9 @@ def run_mut_family(prop, tier, seed):
     from . import family_mut
     nwl, nsched = {"quick": (16, 2), "thorough": (128, 8)}[tier]
     ev = Evidence(prop, tier, seed, "fault_enumeration")
-    ev.rule = ("workload = objects + archive + thin archive (+members) + linker script with INPUT(); one "
+    ev.rule = ("workload = objects + archive + thin archive (+members) + linker script with INPUT() + "
+               "archive found via -L/-l + --start-lib object + object behind a symbolic link + shared "
+               "library + linker script nested in a linker script; one "
                "mutation {rewrite same bytes, append, replace by rename, touch} of one input, placed at "
                "each of 13 phase boundaries (enumerated) and at random scheduler steps, threads 1/2/4, "
                "fork/no-fork; obligation only when the mutation step lies in (Opened(f), VerifyStart). "
@@ -323,6 +325,9 @@ REQUIRED_PROBES = {
     "C21": ["kind_exe", "kind_shared", "relink_ok", "probe_old_output_renamed_away"],
     "C20": ["inwindow_role_object", "inwindow_role_archive", "inwindow_role_thin-archive-index",
             "inwindow_role_thin-member", "inwindow_role_linker-script", "inwindow_role_script-input",
+            "inwindow_role_searched-archive", "inwindow_role_start-lib-object",
+            "inwindow_role_symlinked-object", "inwindow_role_shared-library",
+            "inwindow_role_nested-linker-script",
             "detected", "window_after-verify-start"],
     "C17": ["fault_fired_fsize", "fault_fired_panic", "fault_fired_abort", "fault_fired_alloc", "fault_fired_segv",
             "fault_fired_kill", "fault_fired_err", "fork", "nofork"],
